@@ -972,6 +972,96 @@ def reproduce(ctx, r, members, sites, universe, how, feats):
     return shown
 
 
+def rotated_coverage_case(ctx):
+    """A cleanup task whose coverage is a polygon in an SRS that is rotated against the grid SRS (EPSG:4326 triangle over Iceland, EPSG:3035 grid: the grid is turned by about 25 degrees against the meridians there):
+    what is removed has to be decided on the tile itself - its rectangle in the GRID SRS against the polygon brought there -
+    not on the bounding box the tile has in the SRS of the polygon.  Exact geometry on a lattice (Cleanup.tla) is not available
+    for reprojected polygons: the set that has to go / has to stay comes from an oracle (pyproj + shapely in the grid SRS),
+    tiles within 2 km of the outline are left open."""
+    import io
+    import contextlib
+    import shutil
+    import tempfile
+    import pyproj
+    import shapely.geometry as G
+    import shapely.ops
+    from mapproxy.config.loader import ProxyConfiguration
+    from mapproxy.seed.config import SeedingConfiguration
+    from mapproxy.seed.cleanup import cleanup
+    from mapproxy.cache.tile import Tile
+    d = tempfile.mkdtemp(prefix='verif-c12-rot-')
+    try:
+        # a triangle across the grid, densified (both sides bring the same outline into the grid SRS)
+        corners = [(-22.0, 64.0), (-14.0, 64.5), (-18.0, 66.3), (-22.0, 64.0)]
+        pts = []
+        for (x0, y0), (x1, y1) in zip(corners, corners[1:]):
+            n = 200
+            # (not exactly collinear: loading the coverage drops collinear vertices, and an edge of 8 degrees that is straight
+            # in one SRS is a curve in the other)
+            pts += [(x0 + (x1 - x0) * i / n + 0.002 * (i % 2), y0 + (y1 - y0) * i / n - 0.002 * (i % 2)) for i in range(n)]
+        pts.append(corners[0])
+        tri = G.Polygon(pts)
+        cov_file = os.path.join(d, 'cov.wkt')
+        with open(cov_file, 'w') as f:
+            f.write(tri.wkt)
+        conf = {'services': {'tms': {}},
+                'grids': {'u': {'srs': 'EPSG:3035', 'bbox': [2700000, 4600000, 3340000, 5240000], 'res': [10000, 5000, 2500],
+                                'tile_size': [16, 16], 'origin': 'll'}},
+                'sources': {'s': {'type': 'wms', 'req': {'url': 'http://up.invalid/s', 'layers': 'x'}}},
+                'caches': {'c': {'grids': ['u'], 'sources': ['s'], 'meta_size': [1, 1], 'meta_buffer': 0,
+                                 'cache': {'type': 'file', 'directory': os.path.join(d, 'cache'), 'directory_layout': 'tms'}}},
+                'layers': [{'name': 'l', 'title': 'l', 'sources': ['c']}],
+                'globals': {'cache': {'base_dir': os.path.join(d, 'cd'), 'lock_dir': os.path.join(d, 'l'), 'tile_lock_dir': os.path.join(d, 'tl')}}}
+        sconf = {'cleanups': {'k': {'caches': ['c'], 'grids': ['u'], 'levels': [1, 2], 'coverages': ['tri'],
+                                    'remove_before': {'time': '2020-01-01T00:00:00'}}},
+                 'coverages': {'tri': {'datasource': cov_file, 'srs': 'EPSG:4326'}}}
+        pc = ProxyConfiguration(conf, conf_base_dir=d, seed=True, renderd=False)
+        tasks = SeedingConfiguration(sconf, mapproxy_conf=pc).cleanups(['k'])
+        tm = tasks[0].tile_manager
+        grid = tm.grid
+        old = _time.mktime(_time.strptime('2019-06-01T00:00:00', '%Y-%m-%dT%H:%M:%S'))
+        every = []
+        for z in range(3):
+            for x in range(grid.grid_sizes[z][0]):
+                for y in range(grid.grid_sizes[z][1]):
+                    p = tm.cache.tile_location(Tile((x, y, z)), create_dir=True)
+                    with open(p, 'wb') as f:
+                        f.write(b'tile')
+                    os.utime(p, (old, old))
+                    every.append((x, y, z))
+        with contextlib.redirect_stdout(io.StringIO()):
+            cleanup(tasks, concurrency=1, dry_run=False, skip_geoms_for_last_levels=0, progress_logger=None)
+        left = {c for c in every if os.path.exists(tm.cache.tile_location(Tile(c)))}
+        tr = pyproj.Transformer.from_crs('EPSG:4326', 'EPSG:3035', always_xy=True).transform
+        poly = shapely.ops.transform(tr, tri)
+        must_go, must_stay = set(), set()
+        for c in every:
+            box = G.box(*grid.tile_bbox(c))
+            if c[2] == 0:
+                must_stay.add(c)
+            elif box.intersects(poly.buffer(-2000)):
+                must_go.add(c)
+            elif box.distance(poly) > 2000:
+                must_stay.add(c)
+        ctx.count(('rotated-coverage', len(every), len(every) - len(left)))
+        if len(must_go) < 10 or len(must_stay) < 30:
+            raise tlc.MachineryError('rotated coverage: oracle sets too small (%d to go, %d to stay)' % (len(must_go), len(must_stay)))
+        wrong = sorted(c for c in must_stay if c not in left)
+        kept = sorted(c for c in must_go if c in left)
+        if wrong:
+            c = wrong[0]
+            ctx.violation({'kind': 'rotated-coverage', 'what': 'removed-outside-the-coverage'},
+                          'cleanup with a polygon coverage in EPSG:4326 on an EPSG:3035 grid: %d expired tiles were removed although they lie more '
+                          'than 2 km outside the polygon, e.g. tile %s, %.1f km away (all: %s)' % (
+                              len(wrong), list(c), G.box(*grid.tile_bbox(c)).distance(poly) / 1000.0, [(list(x), round(G.box(*grid.tile_bbox(x)).distance(poly) / 1000.0, 2)) for x in wrong[:6]]), {'tiles': [list(x) for x in wrong[:20]]})
+        if kept:
+            ctx.violation({'kind': 'rotated-coverage', 'what': 'expired-tile-inside-the-coverage-kept'},
+                          'cleanup with a polygon coverage in EPSG:4326 on an EPSG:3035 grid: %d expired tiles that reach more than 2 km into the '
+                          'polygon are still there, e.g. %s' % (len(kept), list(kept[0])), {'tiles': [list(x) for x in kept[:20]]})
+    finally:
+        shutil.rmtree(d, ignore_errors=True)
+
+
 def run(ctx):
     thorough = ctx.tier == 'thorough'
     if _time.mktime(_time.strptime(T0_ISO, '%Y-%m-%dT%H:%M:%S')) != T0:
@@ -1167,6 +1257,7 @@ def _drive_real(ctx, thorough, bks, feats, feats_big, classes, class_of_rec, sit
 
 
 def _finish(ctx):
+    rotated_coverage_case(ctx)
     ctx.assumptions += [
         'time is compared at one-second granularity: tiles written in the second of the threshold may be kept or removed; '
         'a meta tile that only touches the coverage (no common interior) may be handled or skipped',
